@@ -357,7 +357,13 @@ def register_pandas():
     def normalize_extension_array(arr):
         import numpy as np
 
-        return normalize_token(np.asarray(arr))
+        # np.asarray() alone loses the dtype: Int64 and Float64 arrays with a
+        # missing value both become float64, a string array becomes an object array
+        return (
+            type(arr).__name__,
+            normalize_token(arr.dtype),
+            normalize_token(np.asarray(arr)),
+        )
 
     # Dtypes
     @normalize_token.register(pd.api.types.CategoricalDtype)
